@@ -211,7 +211,10 @@ def judge(c, res):
         if min(cnts) == 0:
             sig = "C30:transfer:count0:%s" % c["root"]
         elif min(cnts) == 1:
-            sig = "C30:transfer:count1:%s" % ("irregular-nested-element" if count1_irregular(c) else "regular:" + c["root"])
+            root = c["nodes"][-1]
+            one_d = root["k"] == "subarray" and root["p"][0] == 1 and c["nodes"][root["ch"][0] - 1]["k"] != "basic"
+            sig = "C30:transfer:count1:%s" % ("irregular-nested-element" if count1_irregular(c) else
+                                              "regular:" + c["root"] + (":1d-of-derived" if one_d else ""))
         else:
             sig = "C30:transfer:count>=2-only:%s" % ("irregular-element" if irregular(c) else "regular:" + c["root"])
         k0 = sorted(fails)[0]
